@@ -56,12 +56,23 @@ def deq(v):
     """dequantized twin with the same reported strides (so that stride-dependent validity is the same)"""
     if is_q(v):
         d = v.dequantize()
-        try:
-            r = torch.empty_strided(tuple(v.shape), tuple(v.stride()), dtype=d.dtype)
-            r.copy_(d)
-            return r
-        except Exception:  # noqa
-            return d
+        # validity of stride-dependent ops (view) is decided by the payload the handler applies the op to:
+        # per-tensor QBytes → the strides of `_data`; per-axis / low-bit tensors are dequantized first (contiguous)
+        if is_qb(v) and v.axis is None and tuple(v._data.shape) == tuple(v.shape) and 0 not in v._data.stride():
+            try:
+                r = torch.empty_strided(tuple(v.shape), tuple(v._data.stride()), dtype=d.dtype)
+                r.copy_(d)
+                return r
+            except Exception:  # noqa
+                return d
+        if is_qb(v) and v.axis is None and 0 in v._data.stride():
+            # expanded payload (stride 0): reproduce the expansion on the float side
+            try:
+                base_idx = tuple(slice(0, 1) if st == 0 else slice(None) for st in v._data.stride())
+                return d[base_idx].contiguous().expand(tuple(v.shape))
+            except Exception:  # noqa
+                return d
+        return d
     if isinstance(v, (list, tuple)):
         return [deq(x) for x in v]
     if isinstance(v, Fraction):
